@@ -448,6 +448,21 @@ func (m *Manager) lock() {
 		}
 	}
 
+	// Remove all derived private keys that were cached for fast access.
+	for _, manager := range m.scopedManagers {
+		var cachedPaths []DerivationPath
+		manager.privKeyCache.Range(
+			func(path DerivationPath, cached *cachedKey) bool {
+				cached.key.Zero()
+				cachedPaths = append(cachedPaths, path)
+				return true
+			},
+		)
+		for _, path := range cachedPaths {
+			manager.privKeyCache.Delete(path)
+		}
+	}
+
 	// Remove clear text private master and crypto keys from memory.
 	m.cryptoKeyScript.Zero()
 	m.cryptoKeyPriv.Zero()
